@@ -54,7 +54,7 @@ func (d *zxHandlerDB) RegisterQueryHandler(partition int, query planner.QueryClu
 	d.handler = query
 }
 
-//zx:harness prop=C13 id=C13.R tier=quick replay=interp K=2
+//zx:harness prop=C13 id=C13.R tier=quick replay=interp K=2 thorough.K=4
 func zxC13RemoteQuery() {
 	K := vrtParam("K", 2)
 	k := vrtShape("rows", K+1)
